@@ -189,6 +189,24 @@ def c10_c(ctx):
                 ctx.check(ok, f, 'gradient starts at 0', 'zeros_like(x)',
                           'the gradient buffer does not start at zero', fn=f,
                           node=inits[0] if inits else f.node)
+        # an early return (before the masked write) is taken only when no point is inside
+        if stores:
+            mk = 'self.{}(_y)'.format(wb.name)
+            empties = ['len(_x[{}, :]) == 0'.format(mk), 'len(_x[{}]) == 0'.format(mk),
+                       '_x[{}, :].shape[0] == 0'.format(mk), 'np.sum({}) == 0'.format(mk),
+                       '{}.sum() == 0'.format(mk), '_x[{}, :].size == 0'.format(mk)]
+            none_in = ['np.any({})'.format(mk), '{}.any()'.format(mk)]
+            for r in returns(f):
+                if ctx.must_precede(f, [stores[0]], r):
+                    continue
+                g = ctx.guards(f, r)
+                ok = any(pol and match_any(t, empties) is not None for (t, pol, _) in g) or \
+                    any((not pol) and match_any(t, none_in) is not None for (t, pol, _) in g)
+                ctx.check(ok, f, what + ': early return only when no point is inside the bounds',
+                          'len(x[mask]) == 0',
+                          'the {} returns its initial buffer early under a condition other than '
+                          '"no query point is inside the bounds": in-bounds rows of a mixed batch '
+                          'get the out-of-bounds value'.format(what), fn=f, node=r)
         # the surrogate is evaluated at the points inside the bounds only
         pc = ctx.calls(f, 'self.model.predict(_)')
         ok = bool(pc) and all(match(exf.term(c.args[0]), pattern('_x[self.{}(_y), :]'.format(
